@@ -109,7 +109,7 @@ func (fr *Frame) call(site ssa.Instruction, c *ssa.CallCommon, st *State) []Val 
 				e := parse(r, strings.TrimSpace(part))
 				a := r.fr.evalCtx(pre, r.fr.entry).with(binds).eval(e)
 				b := r.fr.evalCtx(st, r.fr.entry).with(binds).eval(e)
-				fc.assume(st, eqVal(a.V, b.V))
+				fc.assume(st, preservedFact(a.V, b.V))
 			}
 		case "sets":
 			// ghost assignment after the call: `callspec Pop sets pending = result.1 ? 1 : 0, last = result.0`
@@ -663,7 +663,7 @@ func (fr *Frame) callFuncValue(site ssa.Instruction, c *ssa.CallCommon, fv Val, 
 			evPost := specFrame.evalCtx(st, specFrame.entry)
 			a := evPre.eval(e)
 			b := evPost.eval(e)
-			fc.assume(st, eqVal(a.V, b.V))
+			fc.assume(st, preservedFact(a.V, b.V))
 		}
 	}
 	sig := c.Value.Type().Underlying().(*types.Signature)
@@ -943,4 +943,15 @@ func (fr *Frame) ghostInc(ev *EvalCtx, c *Clause, st *State) {
 		row := Select(arr, keys[0])
 		st.ghosts[name] = fc.sc.Define("gmap", Store(arr, keys[0], Store(row, keys[1], Add(Select(row, keys[1]), amount))))
 	}
+}
+
+
+// preservedFact: what "the call preserves e" means. For a value: it is unchanged. For a predicate: if it held
+// before the call it holds after it (one direction only - an equivalence between two quantified formulas is much
+// harder for the solvers and is never what an invariant needs).
+func preservedFact(a, b Val) *Term {
+	if a.T != nil && a.T.Sort == SBool && b.T != nil && strings.Contains(a.T.S, "forall") {
+		return Implies(a.T, b.T)
+	}
+	return eqVal(a, b)
 }
